@@ -35,7 +35,7 @@ CLAIMS = {
          "Bounds: content of a few symbolic bytes (see evidence); real files, parquet, real worker scheduling outside.", "§5 C23"),
  "C24": ("For csv and json inputs of a few symbolic cells / bounded JSON shapes, every value the real datasource produces (inside and beyond the preview) matches the type the real inference reported; two known findings (silent conversion beyond the preview instead of an error) are excluded by predicate.",
          "Bounds: cells <= 2-3 bytes, JSON depth <= 1-2; 100-row preview scaled down by harness parameters.", "§5 C24"),
- "C25": ("For every row of values within the bounds the real JSON formatter (fastjson arena, marshal, escaping) produces a line that a reference JSON reader decodes back to the same values and structure, strings byte for byte; the CSV value formatter decodes back for scalars (NULL = empty).",
+ "C25": ("For every row of values within the bounds the real JSON formatter (fastjson arena, marshal, escaping) produces a line that a reference JSON reader decodes back to the same values and structure, strings byte for byte; the CSV value formatter decodes back for scalars (NULL = empty), and several rows through one real CSVFormatter (encoding/csv quoting included) decode back through an RFC 4180 reader.",
          "Bounds: ints |x| small, strings <= 2-3 arbitrary bytes, nesting depth <= 1-2; finite float / time / duration rendering and the encoding/csv quoting layer outside; NaN/Inf rendering is a known finding.", "§5 C25"),
  "C26": ("Values, types, schemas, records, metadata messages and both variable contexts survive the real native->proto->native converters unchanged (Compare / Equals) for all symbolic inputs within the bounds; for every function overload, the predicate repopulated by RepopulatePhysicalExpressionFunctions evaluates like the original on all symbolic arguments.",
          "Bounds: depth <= 1, <= 2 values/frames; the JSON transport is simulated by clearing the json:\"-\" fields; protobuf wire bytes, gRPC and a live plugin are outside.", "§5 C26"),
@@ -43,14 +43,14 @@ CLAIMS = {
          "Bounds: names <= 4-5 bytes over letters and '-', <= 2-3 versions from a catalogue; install-time selection and constraint resolution in cmd/root.go are outside (HTTP/JSON).", "§5 C28"),
  "C30": ("String literals and identifiers with arbitrary symbolic content survive print -> lex (one token, same bytes); a catalogue of 61 statements covering OctoSQL's extensions survives parse -> print -> parse with an identical tree (independent dump) and identical text.",
          "Bounds: literals <= 2-3 bytes, identifiers <= 3 bytes; statements outside the catalogue are outside.", "§5 C30"),
- "C01": ("For each query of a 14-shape single-source catalogue (WHERE, projections, DISTINCT, ORDER BY, LIMIT, subquery in FROM, WITH, COALESCE) and every table within the bounds, the real pipeline "
+ "C01": ("For each query of a 15-shape single-source catalogue (WHERE, projections, DISTINCT, ORDER BY, LIMIT, subquery in FROM, WITH, COALESCE) and every table within the bounds, the real pipeline "
          "(SQL parser, logical plan, typechecker, optimizer, Materialize, execution nodes, top-level ORDER BY/LIMIT wiring) executed symbolically returns exactly the multiset (and order) a hand-written reference of SQL semantics defines.",
          "Bounds: t(a,b) 0..2 (quick) / 0..3 (thorough) rows, cells Int over all 2^64 values or NULL. Partial: catalogue queries only, Int|NULL columns only.", "§5 C01"),
- "C04": ("Differential: for each of 14 rewrite-triggering query shapes and every pair of tables within the bounds, the plan after the real optimizer.Optimize fixpoint and the unoptimized plan, both materialised and run "
-         "symbolically on the same tables, return the same multiset of rows and the same error status; with a datasource that rejects push-down and one that accepts it.",
-         "Bounds: t(a,b), u(a,b) 0..1 (quick) / 0..2 (thorough) rows, cells Int over all 2^64 values or NULL; catalogue queries only; csv/parquet column pruning inside the real file sources is outside.", "§5 C04"),
+ "C04": ("Differential: for each of 30 rewrite-triggering query shapes and every pair of tables within the bounds, the plan after the real optimizer.Optimize fixpoint and the unoptimized plan, both materialised and run "
+         "symbolically on the same tables, return the same multiset of rows and the same error status; with a datasource that rejects push-down and one that accepts it; plus 7 queries over the REAL csv / json / lines datasources fed an arbitrary body through stdin.",
+         "Bounds: t(a,b), u(a,b) 0..1 (quick) / 0..2 (thorough) rows, cells Int over all 2^64 values or NULL, w(a, l [Int]) for UNNEST; catalogue queries only; real-datasource bodies <= 2-3 arbitrary bytes after a fixed header; parquet is outside.", "§5 C04"),
  "C07": ("No Go runtime panic on any path, for: every function descriptor on arbitrary symbolic arguments of its declared types (all int64 values incl. 0, negatives, MinInt64), COALESCE with the real ObjectLayoutFixer, "
-         "every execution expression kind, VariablesUsed/SplitByAnd over every expression kind, max_diff_watermark and tumble over sampled durations. Partial claim: arbitrary query strings / CLI options / files are outside.",
+         "every execution expression kind, VariablesUsed/SplitByAnd over every expression kind, max_diff_watermark and tumble over sampled durations, and for ten query templates with an arbitrary byte fragment (1 byte quick, 2 bytes thorough) through lexer, parser, typechecker, optimizer and execution. Partial claim: other query strings / CLI options / files are outside.",
          "Bounds: strings <= 2 bytes, lists/tuples <= 1-2 elements, types depth <= 1-2; like, ~, ~*, parse_time excluded (regexp/time parsing).", "§5 C07"),
  "C12": ("reverse = runes reversed for every string within the bounds (incl. multibyte and invalid UTF-8), substr/position/len/replace/upper/lower equal small references on ASCII input. Partial: LIKE / ~ / ~* are outside.",
          "Bounds: strings <= 3 (quick) / 4 (thorough) bytes.", "§5 C12"),
